@@ -123,15 +123,21 @@ def cmd_check(args):
     fixed_cases = getattr(mod, "fixed_cases", lambda tier: [])(tier)
     fixed_run = 0
     fixed_sub = {}
-    for case in fixed_cases:
+
+    def _run_fixed(case):
         try:
-            out = mod.run_case(case)
+            return case, mod.run_case(case), None
         except build.InfraError as e:
-            print("INFRA: fixed case failed: %s" % str(e)[:1500])
-            return 2
+            return case, None, "fixed case failed: %s" % str(e)[:1500]
         except Exception as e:          # a harness bug must never look like a violation
             import traceback
-            print("INFRA: harness exception in fixed case: %s\n%s" % (e, traceback.format_exc()[-1500:]))
+            return case, None, "harness exception in fixed case: %s\n%s" % (e, traceback.format_exc()[-1500:])
+    import concurrent.futures
+    with concurrent.futures.ThreadPoolExecutor(max_workers=8) as ex:
+        fixed_results = list(ex.map(_run_fixed, fixed_cases))
+    for case, out, err in fixed_results:
+        if err:
+            print("INFRA: " + err)
             return 2
         fixed_run += 1
         for k, v in out.sub.items():
@@ -139,7 +145,7 @@ def cmd_check(args):
         if not out.ok:
             path = write_replay(prop, tier, seed, {"case": case, "violations": out.violations[:5]})
             print("VIOLATION property=%s replay=%s" % (prop, path))
-            print("  " + json.dumps(out.violations[0], ensure_ascii=False)[:400])
+            print("  " + json.dumps({k: v for k, v in out.violations[0].items() if k != "replay_case"}, ensure_ascii=False)[:400])
             exit_code = 1
     # 3. generated search, sharded
     total = args.examples or mod.TIERS[tier]
